@@ -147,6 +147,7 @@ type World struct {
 	remotes remoteTable
 	issued  []int
 	kinds   map[int]string
+	pktBuf  []byte // the reader's reusable packet buffer
 	seen    map[int]bool
 	wireN   int
 	log     []string
@@ -300,6 +301,9 @@ func (w *World) issue(tid int, call string) {
 		if k == 3 {
 			w.remotes.add(d)
 		}
+		// like the manager's reader, hand the stream a buffer that is reused for the next packet
+		w.pktBuf = append(w.pktBuf[:0], d...)
+		d = w.pktBuf
 		pkt := drpcwire.Packet{Data: d, ID: drpcwire.ID{Stream: sid, Message: 1}, Kind: drpcwire.Kind(k), Control: f[2] == "1"}
 		w.D.Go(name, func() string { return w.retName(s.HandlePacket(pkt)) })
 	}
